@@ -9,9 +9,13 @@ import copy
 import math
 import random
 
+import logging
+
 import numpy as np
 
 import vlib
+
+logging.getLogger("droplets").setLevel(logging.ERROR)   # amplitude-count hints of the perturbed classes
 
 CLASSES = ["SphericalDroplet", "DiffuseDroplet", "PerturbedDroplet2D", "PerturbedDroplet3D",
            "PerturbedDroplet3DAxisSym"]
@@ -169,7 +173,11 @@ def exc_kind(e: BaseException) -> str:
         return "BoundsNotStrict"
     if isinstance(e, ValueError) and "incompatible with grid" in s:
         return "DimMismatch"
-    return f"Other:{type(e).__name__}:{s[:80]}"
+    if isinstance(e, ValueError) and "zero-size array to reduction" in s:
+        return "EmptyRegion"
+    if isinstance(e, ValueError):
+        return "ValueError"
+    return f"Other:{type(e).__name__}"
 
 
 # =========================================================================================
@@ -223,6 +231,7 @@ def run_refine(case: dict) -> dict:
         except Exception as e:  # noqa
             rec["out"] = None
             rec["error"] = exc_kind(e)
+            rec["error_message"] = f"{type(e).__name__}: {e}"[:200]
     rec["calls"], rec["dilations"] = ins.calls, ins.dilations
     rec["image_unchanged"] = bool(np.array_equal(before, image.data))
     rec["image"] = before
@@ -462,7 +471,9 @@ def qopt(x) -> str:
 
 
 def bound_lit(v: float) -> str:
-    return "None" if math.isinf(v) else f"(Some {vlib.qlit(v)})"
+    if math.isinf(v):
+        return "PosInf" if v > 0 else "NegInf"
+    return f"(Fin {vlib.qlit(v)})"
 
 
 def grid_lit(gs: dict) -> str:
@@ -479,18 +490,19 @@ def droplet_lit(ds: dict) -> str:
 
 
 def case_lit(case: dict, rec: dict) -> str | None:
-    """Coq record of one recorded refinement, or None when the run cannot be expressed (non-finite data)"""
-    if rec["dmin"] is None:
+    """Coq record of one recorded refinement, or None when the run cannot be expressed (non-finite data, an error
+    outside the modelled enum)"""
+    if rec["region"] is None:
         return None
     call = rec["calls"][0] if rec["calls"] else None
-    vals = [rec["dmin"], rec["dmax"], rec["hyp"], rec["typical"]]
+    vals = [rec["hyp"], rec["typical"]] + ([rec["dmin"], rec["dmax"]] if rec["dmin"] is not None else [])
     if call is not None:
         vals += list(call["x0"]) + list(call.get("x", []))
     if not all(math.isfinite(v) for v in vals):
         return None
     if rec["error"] is None:
         out = f"(ROk {droplet_lit(rec['out'])})"
-    elif rec["error"] in ("Infeasible", "BoundsNotStrict", "DimMismatch"):
+    elif rec["error"] in ("Infeasible", "BoundsNotStrict", "DimMismatch", "EmptyRegion"):
         out = f"(RErr E{rec['error']})"
     else:
         return None
@@ -503,12 +515,13 @@ def case_lit(case: dict, rec: dict) -> str | None:
         hi = vlib.listlit(call["hi"], bound_lit)
         x = vlib.listlit(call.get("x", call["x0"]), vlib.qlit)
         called = "true"
+    stats = "None" if rec["dmin"] is None else f"(Some ({vlib.qlit(rec['dmin'])}, {vlib.qlit(rec['dmax'])}))"
     its = rec["dilations"][0]["iterations"] if rec["dilations"] else -1
-    return ("{| rc_grid := %s; rc_cand := %s; rc_vmin := %s; rc_vmax := %s; rc_adjust := %s; rc_dmin := %s; "
-            "rc_dmax := %s; rc_x := %s; rc_hyp := %s; rc_called := %s; rc_x0 := %s; rc_lo := %s; rc_hi := %s; "
+    return ("{| rc_grid := %s; rc_cand := %s; rc_vmin := %s; rc_vmax := %s; rc_adjust := %s; rc_stats := %s; "
+            "rc_x := %s; rc_hyp := %s; rc_called := %s; rc_x0 := %s; rc_lo := %s; rc_hi := %s; "
             "rc_iter := %s; rc_out := %s |}"
             % (grid_lit(case["grid"]), droplet_lit(case["candidate"]), qopt(case["vmin"]), qopt(case["vmax"]),
-               vlib.blit(case["adjust"]), vlib.qlit(rec["dmin"]), vlib.qlit(rec["dmax"]), x, vlib.qlit(rec["hyp"]),
+               vlib.blit(case["adjust"]), stats, x, vlib.qlit(rec["hyp"]),
                called, x0, lo, hi, vlib.zlit(int(its)), out))
 
 
@@ -594,7 +607,7 @@ def c04_oracle(case: dict, rec: dict) -> list[dict]:
     if not rec["image_unchanged"]:
         fail("image modified", "the image array was modified by refine_droplet")
     if rec["error"] is not None:
-        fail("raises", f"refine_droplet raised {rec['error']}")
+        fail("raises:" + rec["error"], f"refine_droplet raised {rec.get('error_message', rec['error'])}")
         return fails
     out = rec["out"]
     prom = rec["promoted"]
@@ -657,3 +670,35 @@ def c04_oracle(case: dict, rec: dict) -> list[dict]:
         if not ok:
             fail("fixed point", f"image rendered from the candidate itself, but the result differs: {prom} -> {out}")
     return fails
+
+
+# =========================================================================================
+# proofs with golden fallback (DESIGN.md 2.2)
+# =========================================================================================
+def prove_with_fallback(ctx, deps: list[str], gens: list[str]) -> tuple[bool, bool]:
+    """-> (proofs hold, over the freshly generated text?).  When the fresh Gen_refine / Gen_refine_R / Gen_shapes
+    text is missing (translator failed closed) or no longer supports the proofs, the theorems are re-checked over
+    the golden model; the tie to the code is then the correspondence run (which must agree)."""
+    import gen_refine
+    nb, ob, dc = len(ctx.broken), ctx.obligations, ctx.discharged
+    ok = vlib.prove(ctx, deps, gens=gens)
+    if ok:
+        ctx.tie.append("translator (" + ", ".join(gens) + " regenerated from the current source; proofs over the fresh text)")
+        return True, True
+    first = ctx.broken[nb:]
+    if any(b.startswith("forbidden construct") or "assumptions outside" in b for b in first):
+        return False, True
+    del ctx.broken[nb:]
+    ctx.obligations, ctx.discharged = ob, dc
+    ctx.notes.append("fresh generated text does not support the proofs -> golden model: " + " | ".join(first)[:700])
+    ctx.extra["fresh_text_failure"] = first[:3]
+    with vlib.BuildLock():
+        vlib._write_if_changed(vlib.COQ_BUILD / "Gen" / "Gen_refine.v", gen_refine.GOLDEN)
+        vlib._write_if_changed(vlib.COQ_BUILD / "Gen" / "Gen_refine_R.v", gen_refine.GOLDEN_R)
+        if "Gen_shapes" in gens:
+            import gen_shapes
+            vlib._write_if_changed(vlib.COQ_BUILD / "Gen" / "Gen_shapes.v", gen_shapes.GOLDEN)
+    ok2 = vlib.prove(ctx, deps, gens=[])
+    ctx.tie.append("tie: correspondence (translator fell back to the golden model)")
+    ctx.extra["translator_fell_back"] = True
+    return ok2, False
